@@ -11,8 +11,8 @@ import (
 // operation path; a successor is "fresh instance + replay path + one more
 // operation", all done by Run.
 type BFS struct {
-	NumOps   int
-	MaxDepth int // number of operations; 0 = unbounded (fixpoint)
+	NumOps    int
+	MaxDepth  int // number of operations; 0 = unbounded (fixpoint)
 	MaxStates int // safety cap; 0 = none
 
 	// Run executes path on a fresh instance (checking whatever invariants the
